@@ -110,18 +110,22 @@ func GenSpec(t *rapid.T, l string, u EntUniverse) *EntSpec {
 	}
 	if u.System {
 		s.IsSystem = chance(t, l+"_sys", 40)
+		s.Migrate = chance(t, l+"_migrate", 25)
 	}
 	if chance(t, l+"_tag", 30) {
 		s.TagV = Sp(pick(t, l+"_tagv", []string{"x", "y", ""}))
 	}
 	if u.Hostile && chance(t, l+"_hostile", 6) {
-		switch rapid.IntRange(0, 2).Draw(t, l+"_hk") {
+		switch rapid.IntRange(0, 3).Draw(t, l+"_hk") {
 		case 0:
 			s.Roles = append(s.Roles, "")
 		case 1:
 			s.Name = strings.Repeat("n", 40000)
 		case 2:
 			s.Alias = Sp(strings.Repeat("a", 33000))
+		case 3:
+			// a set element larger than bbolt's maximum key size: the entity's own list cannot store it
+			s.Roles = append(s.Roles, strings.Repeat("r", 33000))
 		}
 	}
 	return s
@@ -188,6 +192,7 @@ func GenHistoryFrom(t *rapid.T, cfg WorldCfg, setup []TxSpec, maxTx, maxOps int,
 		tx.Batch = chance(t, l+"_batch", 4)
 		if allowSystem {
 			tx.System = chance(t, l+"_system", 45)
+			tx.DeriveSystemFirst = !tx.System && chance(t, l+"_derive", 35)
 		}
 		trial := m.Clone()
 		ok := true
